@@ -1540,9 +1540,170 @@ impl Family for ElifChains {
     }
 }
 
+
+// ---------------------------------------------------------------------------------------------------------------
+// The module line itself under conditionals: a file whose first selected block does not start at 1:1, a file from
+// which nothing at all is selected.
+
+pub struct ConditionalModule;
+/// (lines; a line "P" is a probe `struct P<row> { x: Nope }`, "MX" / "MY" a module line)
+const CM_FILES: [&[&str]; 8] = [
+    &["#if A", "MX", "P", "#endif"],
+    &["#if A", "MX", "#else", "MY", "#endif", "P"],
+    &["#if A", "#if B", "MX", "#else", "MY", "#endif", "P", "#endif", ""],
+    &["", "  ", "#if !A", "MX", "P", "#endif", "#if A", "MY", "P", "#endif"],
+    &["#define C", "#if C && A", "MX", "#elif B", "MY", "#endif", "P"],
+    &["#if A", "#endif", "#if B", "#endif"],
+    &["#if A", "MX", "#endif", "#if A", "P", "#endif", "#if A && B", "P", "#endif"],
+    &["#if A || B", "   MX", "#endif", "#if A", "   P", "#elif B", "P", "#endif"],
+];
+impl Family for ConditionalModule {
+    fn name(&self) -> String {
+        format!("conditional-module/{} files whose MODULE line stands under conditionals (nothing selected at all; the first selected block anywhere but at 1:1; two candidate module lines) x 4 symbol sets x LF / CRLF", CM_FILES.len())
+    }
+    fn len(&self) -> u64 {
+        CM_FILES.len() as u64 * 4 * 2
+    }
+    fn describe(&self, idx: u64) -> Value {
+        let (text, syms, _) = Self::build(idx);
+        json!({"file": text, "symbols": syms})
+    }
+    fn run(&self, idx: u64) -> CaseOut {
+        let (text, syms, lines) = Self::build(idx);
+        let mut out = CaseOut::new(hash_str(&format!("cm{idx}")));
+        out.validated = 1;
+        out.nontrivial = true;
+        let fam = "c06/conditional-module";
+        // reference: which rows are selected (well-formed files only: these all are)
+        let defined = |s: &str| syms.contains(&s) || s == "C";
+        let mut stack: Vec<(bool, bool, bool)> = vec![]; // (parent active, this branch active, some branch taken)
+        let mut selected: Vec<usize> = vec![];
+        let eval = |cond: &str| -> bool {
+            // the few forms used above
+            match cond {
+                "A" => defined("A"),
+                "B" => defined("B"),
+                "!A" => !defined("A"),
+                "C && A" => defined("A"),
+                "A && B" => defined("A") && defined("B"),
+                "A || B" => defined("A") || defined("B"),
+                other => panic!("condition {other:?} not in the table"),
+            }
+        };
+        for (i, l) in lines.iter().enumerate() {
+            let t = l.trim();
+            let active = stack.iter().all(|(p, a, _)| *p && *a);
+            if let Some(c) = t.strip_prefix("#if ") {
+                let v = eval(c);
+                stack.push((active, v, v));
+            } else if let Some(c) = t.strip_prefix("#elif ") {
+                let (p, _, taken) = stack.pop().unwrap();
+                let v = !taken && eval(c);
+                stack.push((p, v, taken || v));
+            } else if t == "#else" {
+                let (p, _, taken) = stack.pop().unwrap();
+                stack.push((p, !taken, true));
+            } else if t == "#endif" {
+                stack.pop();
+            } else if t.starts_with("#define") {
+            } else if !t.is_empty() && active {
+                selected.push(i);
+            }
+        }
+        let exp_module: Option<&str> = selected.iter().find_map(|i| lines[*i].trim().strip_prefix("module "));
+        let exp_probes: Vec<(String, usize, usize)> = selected
+            .iter()
+            .filter(|i| lines[**i].trim().starts_with("struct "))
+            .map(|i| (format!("P{}", i + 1), i + 1, lines[*i].len() - lines[*i].trim_start().len() + 1))
+            .collect();
+        let n_modules = selected.iter().filter(|i| lines[**i].trim().starts_with("module ")).count();
+        let r = guarded(|| {
+            let mut options = SliceOptions::default();
+            options.defined_symbols = syms.iter().map(|s| s.to_string()).collect();
+            let state = slicec::compile_from_strings(&[text.as_str()], Some(&options));
+            let f = &state.files[0];
+            let module = f.module.as_ref().map(|m| {
+                let m = m.borrow();
+                (m.identifier.value.clone(), m.span.start.row, m.span.start.col)
+            });
+            let defs: Vec<(String, usize, usize)> = f
+                .contents
+                .iter()
+                .map(|d| {
+                    let e = d.borrow();
+                    (e.identifier().to_owned(), e.span().start.row, e.span().start.col)
+                })
+                .collect();
+            let diags: Vec<(String, bool, Option<(usize, usize)>)> = state.diagnostics.into_inner().iter().map(|d| (d.code().to_owned(), d.level() == DiagnosticLevel::Error, d.span().map(|s| (s.start.row, s.start.col)))).collect();
+            (module, defs, diags)
+        });
+        let ctx = || format!("symbols {syms:?}\n--- file ---\n{text}");
+        let (module, defs, diags) = match r {
+            Ok(x) => x,
+            Err((loc, msg)) => {
+                out.violate(format!("{fam}/panic@{loc}"), format!("panic at {loc}: {msg}\n{}", ctx()));
+                return out;
+            }
+        };
+        out.class = format!("{}-modules:{}-probes", n_modules, exp_probes.len());
+        if n_modules > 1 || (n_modules == 0 && !exp_probes.is_empty()) {
+            // two module lines, or definitions without a module: an error of the parser, not of the preprocessor
+            if !diags.iter().any(|d| d.1) {
+                out.violate(format!("{fam}/ill-formed-selection-accepted"), ctx());
+            }
+            return out;
+        }
+        if n_modules == 0 {
+            // nothing is selected: an empty file, no diagnostics
+            if module.is_some() || !defs.is_empty() || !diags.is_empty() {
+                out.violate(format!("{fam}/nothing-selected-but-something-parsed"), format!("module {module:?}, definitions {defs:?}, diagnostics {diags:?}\n{}", ctx()));
+            }
+            return out;
+        }
+        // exactly one module line and the probes behind it: only the E033 of each probe is reported
+        let mi = *selected.iter().find(|i| lines[**i].trim().starts_with("module ")).unwrap();
+        let exp_m = (exp_module.unwrap().to_string(), mi + 1, lines[mi].len() - lines[mi].trim_start().len() + 1);
+        if module.as_ref() != Some(&exp_m) {
+            out.violate(format!("{fam}/module-position"), format!("module expected {exp_m:?} (identifier, row, column of the keyword), observed {module:?}\n{}", ctx()));
+        }
+        if defs != exp_probes {
+            out.violate(format!("{fam}/selected-lines"), format!("definitions expected {exp_probes:?}, observed {defs:?}\n{}", ctx()));
+        }
+        let e033: Vec<(usize, usize)> = diags.iter().filter(|d| d.0 == "E033").filter_map(|d| d.2).collect();
+        let exp_e033: Vec<(usize, usize)> = exp_probes.iter().map(|(n, r, c)| (*r, c + format!("struct {n} {{ x: ").len())).collect();
+        if e033 != exp_e033 || diags.iter().any(|d| d.1 && d.0 != "E033") {
+            out.violate(format!("{fam}/diagnostics"), format!("expected one E033 at each of {exp_e033:?} and nothing else, observed {diags:?}\n{}", ctx()));
+        }
+        out
+    }
+}
+impl ConditionalModule {
+    fn build(idx: u64) -> (String, Vec<&'static str>, Vec<String>) {
+        let f = CM_FILES[(idx % CM_FILES.len() as u64) as usize];
+        let syms: Vec<&'static str> = [vec![], vec!["A"], vec!["B"], vec!["A", "B"]][((idx / CM_FILES.len() as u64) % 4) as usize].clone();
+        let crlf = idx / (CM_FILES.len() as u64 * 4) == 1;
+        let lines: Vec<String> = f
+            .iter()
+            .enumerate()
+            .map(|(i, l)| {
+                let t = l.trim_start();
+                let indent = &l[..l.len() - t.len()];
+                match t {
+                    "MX" => format!("{indent}module X"),
+                    "MY" => format!("{indent}module Y"),
+                    "P" => format!("{indent}struct P{} {{ x: Nope }}", i + 1),
+                    other => format!("{indent}{other}"),
+                }
+            })
+            .collect();
+        (lines.join(if crlf { "\r\n" } else { "\n" }), syms, lines)
+    }
+}
+
 pub fn families(tier: &str) -> Vec<Box<dyn Family>> {
     let quick = tier == "quick";
     let mut v: Vec<Box<dyn Family>> = vec![];
+    v.push(Box::new(ConditionalModule));
     v.push(Box::new(ElifChains { max_branches: if quick { 3 } else { 4 } }));
     // small, cheap families first so that a wall cap can only cut the largest sequence family
     v.push(Box::new(ExprTrees { depth: if quick { 3 } else { 4 }, exprs: gen_exprs(if quick { 3 } else { 4 }) }));
